@@ -179,6 +179,24 @@ def correspond(ctx, scale=1):
         if got != want or i_.split()[1] != str(len(prs)):
             mm.append({"key": "kernel-model", "what": "kernel on [%d, %d] (%d KiB): model kernel gives (count, checksum, first, last) = %s, the oracle %s, count_primes %s" % (c[0], c[1], c[2], got, want, i_),
                        "failing_input": ({"start": c[0], "stop": c[1], "sieve_size": c[2], "observed": i_, "expected": len(prs)} if i_.split()[1] != str(len(prs)) else None)})
+    # the final sieve bytes of a real Erat run (pre-sieve, sieving primes > 163, cross-off, end masks) vs the byte arrays of the model
+    # kernel (all ones, every sieving prime >= 7, AND of the unset masks, end masks: the object of C05_kernel_bytes_spec): byte for byte
+    kb_cases = [(7, 3000, 16), (100, 5000, 16), (1000, 1100, 16), (31, 31, 16), (7, 20000, 32), (123457, 140000, 16), (163, 400, 16), (164, 164 + 3000, 17)]
+    for _ in range(6 * min(scale, 3)):
+        a = max(7, rng.below(10 ** rng.between(2, 9)))
+        kb_cases.append((a, a + rng.between(0, 25000), rng.choice([16, 17, 32])))
+    rc, o, e = ps.run([kp], input="".join("BYTES %d %d %d\n" % c for c in kb_cases), timeout=300)
+    rcm, om, em = ps.run([model], input="".join("LEAF kbytes %s %d %d %d\n" % (l1s[0], c[2], c[0], c[1]) for c in kb_cases), timeout=900)
+    dist["kernel_byte_arrays"] = len(kb_cases)
+    oi2, om2 = o.splitlines(), om.splitlines()
+    for idx, c in enumerate(kb_cases):
+        ev += 1
+        a_ = oi2[idx].strip() if idx < len(oi2) else "?"; b_ = om2[idx].strip() if idx < len(om2) else "?"
+        sigs.add(("kbytes", c[0] <= 163, len(a_.split()) > 300))
+        if a_ != b_:
+            av, bvv = a_.split(), b_.split()
+            j = next((i for i in range(min(len(av), len(bvv))) if av[i] != bvv[i]), min(len(av), len(bvv)))
+            mm.append({"key": "kernel-bytes", "what": "sieve bytes of Erat(%d, %d, %d KiB): byte %d is %s in the implementation, %s in the model kernel (%d vs %d bytes)" % (c[0], c[1], c[2], j, av[j:j + 1], bvv[j:j + 1], len(av), len(bvv)), "failing_input": None})
     # the self-contained model kernel (erat_self: recursion for the sieving primes, model-side decoding) on small intervals: the whole list
     es = [(7, 5000, 16), (1000, 9000, 17), (7, 20000, 32), (7, 7, 16), (9000, 9000 + rng.below(3000), 16), (rng.between(7, 3000), 12000, 23)]
     rcm, om, em = ps.run([model], input="".join("LEAF eratself %s %d %d %d\n" % (l1s[0], c[2], c[0], c[1]) for c in es), timeout=900)
